@@ -1543,6 +1543,34 @@ pub const ROUNDTRIP_DOCS: [&str; 40] = [
     "<?xml version=\"1.0\" encoding=\"ISO-8859-1\"?><r/>",
 ];
 
+pub fn multibyte_docs() -> Vec<String> {
+    const T: [&str; 17] = ["-\u{e9}", "x -\u{3042}", "\u{e9}-", "\u{e9}", "\u{3042}", "\u{20ac}5", "5\u{20ac}", "\u{1d4b3}", "\u{e9}t\u{e9}s", "a\u{301}", "x\u{1d4b3}y", "\u{3042}\u{3044}\u{3046}", "\u{10ffff}", "\u{fffd}", "]\u{3042}", "\u{3042}]", "]]\u{e9}"];
+    let mut out = vec![];
+    for t in T {
+        out.push(format!("<r>{}</r>", t));
+        out.push(format!("<r>{}<a/>{}</r>", t, t));
+        out.push(format!("<r a=\"{}\"/>", t));
+        out.push(format!("<r a='{}' b=\"{}\"/>", t, t));
+        out.push(format!("<r><!--{}--></r>", t));
+        out.push(format!("<r><?p {}?></r>", t));
+        out.push(format!("<r><![CDATA[{}]]></r>", t));
+        out.push(format!("<r>{}<![CDATA[{}]]>{}</r>", t, t, t));
+        out.push(format!("<!DOCTYPE r [<!ENTITY e \"{}\"><!ATTLIST r a CDATA \"{}\">]><r>&e;{}</r>", t, t, t));
+        out.push(format!("<!--{}--><r/><?p {}?>", t, t));
+        for u in T {
+            out.push(format!("<r>{}<b>{}</b>{}</r>", t, u, t));
+            out.push(format!("<r>{}&#93;{}</r>", t, u));
+        }
+    }
+    for n in ["\u{e9}", "\u{3042}\u{3044}", "a\u{b7}", "\u{10000}"] {
+        out.push(format!("<{}/>", n));
+        out.push(format!("<{} {}=\"v\">x</{}>", n, n, n));
+        out.push(format!("<r><?{} d?></r>", n));
+        out.push(format!("<r xmlns:{}=\"u\" {}:a=\"v\"/>", n, n));
+    }
+    out
+}
+
 pub fn roundtrip_enumerated() -> Vec<String> {
     const ATTR: [&str; 14] = ["'", "\"", "&#34;", "&#39;", "&quot;", "&apos;", "a", "&lt;", "&amp;", "&#9;", "&#10;", " ", "&#x3C;", ">"];
     const CONTENT: [&str; 15] = ["]", ">", "&gt;", "&#93;", "<![CDATA[]]]]>", "<![CDATA[>]]>", "<!--c-->", "a", "&#62;", "&lt;", "&amp;", "<e/>", "<?p?>", " ", "\n"];
